@@ -55,6 +55,31 @@ func bubble(t *testing.T, f func()) {
 	}
 }
 
+
+// bubbleFail carries a verdict out of a synctest bubble: rapid's Fatalf must run on rapid's own
+// goroutine, outside the bubble (inside it, shrinking does not reproduce reliably).
+type bubbleFail string
+
+func bubbleCheck(t *testing.T, rt *rapid.T, f func(fatalf func(string, ...any))) {
+	var msg string
+	failed := false
+	bubble(t, func() {
+		defer func() {
+			if r := recover(); r != nil {
+				if bf, ok := r.(bubbleFail); ok {
+					msg, failed = string(bf), true
+					return
+				}
+				panic(r)
+			}
+		}()
+		f(func(format string, a ...any) { panic(bubbleFail(fmt.Sprintf(format, a...))) })
+	})
+	if failed {
+		rt.Fatalf("%s", msg)
+	}
+}
+
 type c30Local struct{}
 
 func (c30Local) IsSegLocal(segfetcher.Request) bool { return true }
@@ -156,10 +181,10 @@ func TestC30(t *testing.T) {
 	rec.Assume("all segments are available locally (no remote fetch); the path database holds one copy per hop sequence, the newest", "revocation cache: in-memory implementation")
 	rec.Require("lookup_local", "lookup_wildcard_local_isd", "lookup_wildcard_remote_isd", "lookup_core_dst", "lookup_noncore_dst", "src_core", "src_noncore", "revocation_active", "revocation_expired", "revocation_superseded",
 		"path_suppressed_by_revocation", "path_suppressed_by_expiry", "paths_returned", "single_core_isd", "multi_core_isd")
-	rapid.Check(t, func(rt *rapid.T) { bubble(t, func() { c30Case(rt, rec) }) })
+	rapid.Check(t, func(rt *rapid.T) { bubbleCheck(t, rt, func(fatalf func(string, ...any)) { c30Case(rt, rec, fatalf) }) })
 }
 
-func c30Case(rt *rapid.T, rec *evid.Rec) {
+func c30Case(rt *rapid.T, rec *evid.Rec, fatalf func(string, ...any)) {
 	ctx := context.Background()
 	time.Sleep(250 * time.Millisecond) // keep the clock off the whole and half seconds expiries fall on
 	w := genWorldAt(rt, true, 70000, true)
@@ -182,7 +207,7 @@ func c30Case(rt *rapid.T, rec *evid.Rec) {
 	}
 	db, err := pathsql.New(fmt.Sprintf("c30_%d", c30Seq.Add(1)), &sdb.SqliteConfig{InMemory: true})
 	if err != nil {
-		rt.Fatalf("harness: %v", err)
+		fatalf("harness: %v", err)
 	}
 	defer db.Close()
 	// one copy per hop sequence, as the database keeps them: a second segment with the same hops
@@ -207,12 +232,12 @@ func c30Case(rt *rapid.T, rec *evid.Rec) {
 			ty = seg.TypeUp
 		}
 		if _, err := db.Insert(ctx, &seg.Meta{Segment: s, Type: ty}); err != nil {
-			rt.Fatalf("harness: insert: %v", err)
+			fatalf("harness: insert: %v", err)
 		}
 	}
 	for _, s := range coresAll {
 		if _, err := db.Insert(ctx, &seg.Meta{Segment: s, Type: seg.TypeCore}); err != nil {
-			rt.Fatalf("harness: insert: %v", err)
+			fatalf("harness: insert: %v", err)
 		}
 	}
 	rc := memrevcache.New()
@@ -258,7 +283,7 @@ func c30Case(rt *rapid.T, rec *evid.Rec) {
 			ttl := rapid.IntRange(10, 600).Draw(rt, "revTTL")
 			ri := &path_mgmt.RevInfo{IfID: i.ID, RawIsdas: i.IA, RawTimestamp: uint32(ts.Unix()), RawTTL: uint32(ttl)}
 			if _, err := rc.Insert(ctx, ri); err != nil {
-				rt.Fatalf("harness: %v", err)
+				fatalf("harness: %v", err)
 			}
 			exp := ts.Add(time.Duration(ttl) * time.Second)
 			if exp.After(time.Now()) {
@@ -298,7 +323,7 @@ func c30Case(rt *rapid.T, rec *evid.Rec) {
 			if dst != src.IA {
 				reqs, err := splitter.Split(ctx, dst)
 				if err != nil {
-					rt.Fatalf("split: %v (%s)", err, desc)
+					fatalf("split: %v (%s)", err, desc)
 				}
 				var got []string
 				for _, r := range reqs {
@@ -306,46 +331,46 @@ func c30Case(rt *rapid.T, rec *evid.Rec) {
 				}
 				sort.Strings(got)
 				if want := refRequests(topo, src.IA, src.Core, dst); fmt.Sprint(got) != fmt.Sprint(want) {
-					rt.Fatalf("segment requests %v, required %v (%s)", got, want, desc)
+					fatalf("segment requests %v, required %v (%s)", got, want, desc)
 				}
 			}
 			paths, err := p.GetPaths(ctx, dst, rapid.Bool().Draw(rt, "refresh"))
 			if dst == src.IA {
 				if err != nil || len(paths) != 1 || len(paths[0].Metadata().Interfaces) != 0 || !paths[0].Metadata().Expiry.After(now) {
-					rt.Fatalf("lookup for the local AS returned %d paths (err %v), expected exactly one empty, unexpired path", len(paths), err)
+					fatalf("lookup for the local AS returned %d paths (err %v), expected exactly one empty, unexpired path", len(paths), err)
 				}
 				history = append(history, "lookup local")
 				continue
 			}
 			if err != nil {
-				rt.Fatalf("lookup failed: %v (%s)", err, desc)
+				fatalf("lookup failed: %v (%s)", err, desc)
 			}
 			got := map[string]bool{}
 			for _, pa := range paths {
 				md := pa.Metadata()
 				if len(md.Interfaces) == 0 {
-					rt.Fatalf("empty path returned for a remote destination (%s)", desc)
+					fatalf("empty path returned for a remote destination (%s)", desc)
 				}
 				first, last := md.Interfaces[0].IA, md.Interfaces[len(md.Interfaces)-1].IA
 				if first != src.IA || pa.Source() != src.IA {
-					rt.Fatalf("path starts at %s / %s, not at the local AS: %s (%s)", first, pa.Source(), ifKey(md.Interfaces), desc)
+					fatalf("path starts at %s / %s, not at the local AS: %s (%s)", first, pa.Source(), ifKey(md.Interfaces), desc)
 				}
 				if dst.IsWildcard() {
 					if last.ISD() != dst.ISD() || !isCore[last] {
-						rt.Fatalf("path for wildcard %s ends at %s, which is not a core AS of that ISD: %s (%s)", dst, last, ifKey(md.Interfaces), desc)
+						fatalf("path for wildcard %s ends at %s, which is not a core AS of that ISD: %s (%s)", dst, last, ifKey(md.Interfaces), desc)
 					}
 				} else if last != dst {
-					rt.Fatalf("path ends at %s, requested %s: %s (%s)", last, dst, ifKey(md.Interfaces), desc)
+					fatalf("path ends at %s, requested %s: %s (%s)", last, dst, ifKey(md.Interfaces), desc)
 				}
 				if pa.Destination() != last {
-					rt.Fatalf("path object names destination %s, interfaces end at %s", pa.Destination(), last)
+					fatalf("path object names destination %s, interfaces end at %s", pa.Destination(), last)
 				}
 				if !md.Expiry.After(now) {
-					rt.Fatalf("expired path returned: expiry %v, now %v: %s (%s)", md.Expiry, now, ifKey(md.Interfaces), desc)
+					fatalf("expired path returned: expiry %v, now %v: %s (%s)", md.Expiry, now, ifKey(md.Interfaces), desc)
 				}
 				for _, i := range md.Interfaces {
 					if active(i) {
-						rt.Fatalf("path crosses %s, which has an active revocation (until %v, now %v): %s (%s)", i, revs[i].exp, now, ifKey(md.Interfaces), desc)
+						fatalf("path crosses %s, which has an active revocation (until %v, now %v): %s (%s)", i, revs[i].exp, now, ifKey(md.Interfaces), desc)
 					}
 				}
 				got[ifKey(md.Interfaces)] = true
@@ -396,12 +421,12 @@ func c30Case(rt *rapid.T, rec *evid.Rec) {
 				}
 				for _, k := range sortedBoolKeys(want) {
 					if !got[k] {
-						rt.Fatalf("live, unrevoked path not returned: %s (returned %d paths) (%s)", k, len(paths), desc)
+						fatalf("live, unrevoked path not returned: %s (returned %d paths) (%s)", k, len(paths), desc)
 					}
 				}
 				for _, k := range sortedBoolKeys(got) {
 					if !want[k] {
-						rt.Fatalf("returned path is not a live, unrevoked combination of the stored segments: %s (%s)", k, desc)
+						fatalf("returned path is not a live, unrevoked combination of the stored segments: %s (%s)", k, desc)
 					}
 				}
 				if isCore[dst] {
